@@ -51,15 +51,22 @@ ENGINES = ["contracts.c06_forwarding:run_engine_selftest"]
 
 ASSUMPTIONS = [
     "C06 layer S: the (edit, forwarding) pairs are executed on generated procedures whose edited block has "
-    "length 0..4 and whose nesting depth is <= 2 (20 tree shapes, see SHAPES); positions inside a shape are symbolic. "
+    "length 0..4 and whose nesting depth is <= 2 (12 tree shapes, see SHAPES; 4 for Block._move); the edit range, "
+    "the insertion gap and the forwarded cursor's index / range are symbolic inside a shape. "
     "Statement identity is observed through object identity of shared LoopIR nodes (asdl_adt `update` keeps every "
     "field it is not given).",
     "C06 layer U: the list-concatenation model L' = L[:lo] + N + L[hi:] (and its wrap / insert instances) is the "
     "specification of the child list after an edit; that the real `update` closures build exactly this list is what "
     "layer S checks on the enumerated shapes.",
-    "C06: a block cursor that strictly contains the block moved by Block._move is only required not to denote "
-    "foreign statements; (F16) cursors to sibling *expressions* of a replaced expression are outside the property "
-    "(statement/block/gap cursors).",
+    "C06 (reading of the property for blocks): a forwarded block may contain statements the edit inserted strictly "
+    "inside it or that replace / wrap members of it; after Block._move a block that reaches beyond the moved block may "
+    "drop the moved statements but must not denote foreign ones; a block may always be reported invalid (precision is "
+    "only demanded when all its statements survive as consecutive siblings, and not for moves / forward_identity). "
+    "Precondition of Block._move from its 21 call sites: the target gap is not anchored at or inside a moved statement "
+    "(the `target in self` branch raises IndexError at the tail of a list - observation, outside C06). "
+    "(F16) cursors to sibling *expressions* of a replaced expression are outside the property (statement/block/gap cursors).",
+    "C06 _local_forward.forward: cursor paths of length <= depth+2 with depth <= 2 are enumerated as shapes (indices "
+    "symbolic, arbitrary); _starts_with: lists of length <= 3.",
     "C06: Procedure.forward / CursorArgumentProcessor are checked on provenance chains of length 0..3.",
 ]
 
@@ -488,7 +495,8 @@ def drive(R, fn, a, do_edit):
 
 
 def edit_contract(qualname, g_edit, do_edit, expected_model, min_n=0, shapes=None,
-                  block_strict=True, name=None, split_else_blocks=False, block_precision=True):
+                  block_strict=True, name=None, split_else_blocks=False, block_precision=True,
+                  check_foreign=True):
     c = contract("C06", F, qualname, name=name)
     c.rlimit = RLIMIT
 
@@ -544,8 +552,9 @@ def edit_contract(qualname, g_edit, do_edit, expected_model, min_n=0, shapes=Non
             on("block_", block_precise))
     c.ensures("gap cursor: follows its anchor, keeps its side")(on("gap_", gap_sound))
     c.ensures("gap cursor: InvalidCursorError only when the anchor is gone")(on("gap_", gap_precise))
-    c.ensures("cursor of another root is rejected with InvalidCursorError")(
-        on("foreign", lambda a, cur, out, exc, r: isinstance(exc, InvalidCursorError)))
+    if check_foreign:
+        c.ensures("cursor of another root is rejected with InvalidCursorError")(
+            on("foreign", lambda a, cur, out, exc, r: isinstance(exc, InvalidCursorError)))
     return c
 
 
@@ -865,6 +874,25 @@ def _(a):
         conds.append(ok)
         conds += [Implies(gd, n is a.ed.new) for gd, n in cands]
     return And(conds)
+
+
+# ---- forward_identity (rename / make_instr: same tree under a new root) ----------
+# Node and Gap cursors keep their location; Block cursors are reported invalid
+# ("cannot forward blocks") - conservative, allowed by the property.
+
+def g_ident(g, t):
+    return Edit(new_root=t.root.update(name="renamed"), rebuilt=[])
+
+
+def do_ident(R, fn, a):
+    fwd, exc = R.call(fn, a.ed.new_root)
+    return ((a.ed.new_root, fwd), None) if exc is None else (None, exc)
+
+
+edit_contract("forward_identity", g_ident, do_ident, lambda a: [(True, model(a.t.root))],
+              shapes=[("ifbody", 2, None), ("ifbody", 3, 1), ("root", 2, None), ("deep", 2, None)],
+              block_precision=False,
+              check_foreign=False)      # re-roots whatever it is given; Procedure.forward never hands it a foreign cursor
 
 
 # ============================================================================
